@@ -83,6 +83,14 @@ Proof.
   destruct b as [| | | | | | | |[] ? a| |]; try discriminate. simpl. apply plain_term_supported. exact H.
 Qed.
 
+Lemma range_bound_has_value b : range_bound b = true -> exists v, range_bound_value b = Some v.
+Proof.
+  unfold range_bound. intros H. apply orb_prop in H as [H|H].
+  - destruct b as [[]| | | | | | | | | |]; try discriminate; eexists; reflexivity.
+  - destruct b as [| | | | | | | |[] ? a| |]; try discriminate.
+    destruct a as [[]| | | | | | | | | |]; try discriminate; eexists; reflexivity.
+Qed.
+
 Lemma supported_children t : supported t = true -> Forall (fun c => supported c = true) (children t).
 Proof.
   destruct t; simpl; intros H; try discriminate; repeat constructor; try exact H.
@@ -493,12 +501,11 @@ Section VisitSpec.
   Lemma cls_eqb_refl c : cls_eqb c c = true.
   Proof. destruct c; reflexivity. Qed.
 
-  Lemma visit_supported : forall t,
-    supported t = true -> range_bounds_plain t = true -> V t.
+  Lemma visit_supported : forall t, supported t = true -> V t.
   Proof.
-    intros t. induction t as [t IH] using item_children_ind. intros Hs Hr.
+    intros t. induction t as [t IH] using item_children_ind. intros Hs.
     assert (HV : Forall V (children t)).
-    { apply supported_children in Hs as Hs'. apply rbp_children in Hr as Hr'.
+    { apply supported_children in Hs as Hs'.
       rewrite Forall_forall in *. intros c Hc. apply IH; auto. }
     clear IH.
     (* the handler part *)
@@ -567,10 +574,14 @@ Section VisitSpec.
         intros e. destruct (split_nested env fname cx); [destruct (is_enested e)|]; eexists; reflexivity.
       - (* Group *) destruct (Hw0 (propagate_name (Grp KGroup m t) cx)) as [H|H]; [exact H|contradiction H; reflexivity].
       - (* FieldGroup *) destruct (Hw0 (propagate_name (Grp KFieldGroup m t) cx)) as [H|H]; [exact H|contradiction H; reflexivity].
-      - (* Range *) simpl in Hr. apply andb_prop in Hr as [Hlo Hhi].
-        destruct t1 as [[]| | | | | | | | | |]; try discriminate;
-          destruct t2 as [[]| | | | | | | | | |]; try discriminate;
-          (split; [discriminate|]; intros _; simpl; eexists; split; reflexivity).
+      - (* Range *) simpl in Hs. apply andb_prop in Hs as [Hlo Hhi].
+        destruct (range_bound_has_value _ Hlo) as [vlo Hvlo].
+        destruct (range_bound_has_value _ Hhi) as [vhi Hvhi]. rewrite Hvlo, Hvhi.
+        assert (Hm : mixb cfg (Range m t1 t2 il ih) = false).
+        { simpl. unfold range_bound in Hlo, Hhi.
+          destruct t1 as [| | | | | | | |[] ? [| | | | | | | | | |]| |]; try discriminate;
+            destruct t2 as [| | | | | | | |[] ? [| | | | | | | | | |]| |]; try discriminate; reflexivity. }
+        split; [rewrite Hm; discriminate|]. intros _. eexists. split; reflexivity.
       - (* Fuzzy *) apply (Hsingle _ (fun e => ROk [on_leaf (leaf_set_fuzziness deg) e])); [reflexivity|].
         intros e. eexists. reflexivity.
       - (* Proximity *)
@@ -716,18 +727,490 @@ Qed.
 
 (* ================================================================ D. the whole builder *)
 Lemma build_spec cfg t :
-  supported t = true -> range_bounds_plain t = true -> wf_config cfg = true ->
+  supported t = true -> wf_config cfg = true ->
   match check_nested (ev_chk (mk_env cfg)) t with
   | Some e => build cfg t = RExc e
   | None => if mixb cfg t then build cfg t = RExc XMix else exists j, build cfg t = ROk j
   end.
 Proof.
-  intros Hs Hr Hwf. unfold build, build_etree, build_etree_env.
+  intros Hs Hwf. unfold build, build_etree, build_etree_env.
   destruct (check_nested (ev_chk (mk_env cfg)) t); [reflexivity|].
-  destruct (visit_supported cfg (mk_env cfg) t Hs Hr None ctx0) as [V1 V2].
+  destruct (visit_supported cfg (mk_env cfg) t Hs None ctx0) as [V1 V2].
   unfold vmix, parmix, flat in V1, V2. rewrite orb_false_r in V1, V2.
   destruct (mixb cfg t).
   - rewrite (V1 eq_refl). reflexivity.
   - destruct (V2 eq_refl) as [its [Hi Hl]]. rewrite Hi. specialize (Hl eq_refl).
     destruct its as [|e [|? ?]]; try discriminate. apply ejson_total. exact Hwf.
+Qed.
+
+(* ================================================================ E. the leaves of the E-tree *)
+Definition is_leaf (e : eitem) : bool := match e with ELeaf _ => true | _ => false end.
+
+Definition tag (k : eopk) (items : list eitem) : list eitem :=
+  match ztq_of_op k with Some z => map (on_leaf (leaf_set_ztq z)) items | None => items end.
+
+Lemma eleaves_op k items : eleaves (EOp k items) = flat_map eleaves items.
+Proof. simpl. induction items as [|x l IH]; simpl; [reflexivity|]. rewrite IH. reflexivity. Qed.
+
+Lemma mk_op_leaves k items : eleaves (mk_op k items) = flat_map eleaves (tag k items).
+Proof. unfold mk_op, tag. rewrite eleaves_op. reflexivity. Qed.
+
+Lemma eleaves_on_leaf f e :
+  eleaves (on_leaf f e) = if is_leaf e then map f (eleaves e) else eleaves e.
+Proof. destruct e; reflexivity. Qed.
+
+Lemma is_leaf_on_leaf f e : is_leaf (on_leaf f e) = is_leaf e.
+Proof. destruct e; reflexivity. Qed.
+
+Lemma tag_app k a b : tag k (a ++ b) = tag k a ++ tag k b.
+Proof. unfold tag. destruct (ztq_of_op k); [apply map_app|reflexivity]. Qed.
+
+Lemma tag_single k e :
+  flat_map eleaves (tag k [e]) = tagz (ztq_of_op k) (is_leaf e) (eleaves e).
+Proof.
+  unfold tag, tagz. destruct (ztq_of_op k); simpl; rewrite app_nil_r; [|reflexivity].
+  apply eleaves_on_leaf.
+Qed.
+
+Lemma eleaves_exclude p : forall e, eleaves (exclude_nested p e) = eleaves e.
+Proof.
+  intros e. induction e as [l|p' n it IH|k items IH] using eitem_ind'.
+  - reflexivity.
+  - simpl. destruct (str_eqb p' p); [exact IH|reflexivity].
+  - simpl exclude_nested. rewrite !eleaves_op. induction IH as [|x l Hx _ IHl]; simpl; [reflexivity|].
+    rewrite Hx, IHl. reflexivity.
+Qed.
+
+Lemma single_ok (r : eres (list eitem)) e : single r = ROk e -> r = ROk [e].
+Proof. destruct r as [[|x [|? ?]]|]; simpl; intros H; inversion H; reflexivity. Qed.
+
+Lemma propagate_unnamed t cx : named t = false -> propagate_name t cx = cx.
+Proof. unfold named, propagate_name. destruct (name_of t) as [[|? ?]|]; try discriminate; reflexivity. Qed.
+
+(* visit in terms of the visit without enclosing operation *)
+Lemma visit_par_form cfg env t par cx :
+  visit cfg env t par cx =
+  match par with
+  | None => visit cfg env t None cx
+  | Some p =>
+      if cls_eqb (cls_of t) p then walk (visit cfg env) (Some p) cx (children t)
+      else if mixes cfg p (cls_of t) then
+             (if Nat.ltb (length (children t)) 2 then RExc (XOther KIndexError) else RExc XMix)
+           else visit cfg env t None cx
+  end.
+Proof. rewrite !visit_unfold. unfold visit_via. destruct par; reflexivity. Qed.
+
+Definition binary_cls (cfg : es_config) (p : cls) : bool :=
+  match bhandler_of cfg p with BBinary _ => true | _ => false end.
+
+Definition is_binary (t : item) : bool :=
+  match t with Op _ _ _ | Unary KPlus _ _ => true | _ => false end.
+
+Lemma binary_cls_of cfg t : binary_cls cfg (cls_of t) = is_binary t.
+Proof. unfold binary_cls. rewrite bhandler_cls. destruct t as [[]| |[]| | | | |[]|[]|[]|]; reflexivity. Qed.
+
+Lemma bhandler_binary cfg t : is_binary t = true -> bhandler_of cfg (cls_of t) = BBinary (ekind cfg t).
+Proof. rewrite bhandler_cls. destruct t as [| | | | | | |[]|[]| |]; try discriminate; reflexivity. Qed.
+
+Lemma same_cls_ekind cfg t c : cls_eqb (cls_of c) (cls_of t) = true -> ekind cfg c = ekind cfg t.
+Proof.
+  destruct t as [[]| |[]| | | | |[]|[]|[]|], c as [[]| |[]| | | | |[]|[]|[]|]; simpl; intros H;
+    try discriminate; reflexivity.
+Qed.
+
+Lemma same_cls_binary t c : cls_eqb (cls_of c) (cls_of t) = true -> is_binary c = is_binary t.
+Proof.
+  destruct t as [[]| |[]| | | | |[]|[]|[]|], c as [[]| |[]| | | | |[]|[]|[]|]; simpl; intros H;
+    try discriminate; reflexivity.
+Qed.
+
+Lemma binary_not_leafy cfg env t cx : is_binary t = true -> leafy cfg env t cx = false.
+Proof. destruct t as [| | | | | | | |[]| |]; try discriminate; reflexivity. Qed.
+
+Lemma cls_eqb_eq a b : cls_eqb a b = true -> a = b.
+Proof. destruct a, b; try discriminate; reflexivity. Qed.
+
+Lemma op_go_flat_map {A} (f : item -> list A) l :
+  (fix go (l : list item) : list A := match l with [] => [] | c :: l' => f c ++ go l' end) l
+  = flat_map f l.
+Proof. induction l as [|c l IH]; simpl; [reflexivity|]. rewrite IH. reflexivity. Qed.
+
+(* the expected leaves of an operation / + : its operands one after the other *)
+Lemma xl_binary cfg env t cx :
+  is_binary t = true ->
+  xl cfg env t cx =
+  flat_map (fun c => tagz (ztq_of_op (ekind cfg t))
+                          (leafy cfg env c (propagate_name t cx)) (xl cfg env c (propagate_name t cx)))
+           (children t).
+Proof.
+  destruct t as [| | | | | | |k m ops|[] m a| |]; try discriminate; intros _.
+  - simpl children.
+    exact (op_go_flat_map
+             (fun c => tagz (ztq_of_op (ekind cfg (Op k m ops)))
+                            (leafy cfg env c (propagate_name (Op k m ops) cx))
+                            (xl cfg env c (propagate_name (Op k m ops) cx))) ops).
+  - simpl. rewrite app_nil_r. reflexivity.
+Qed.
+
+(* hereditary guard *)
+Lemma nnf_op_go k l :
+  (fix go (l : list item) : bool :=
+     match l with
+     | [] => true
+     | c :: l' =>
+         no_named_flattened c &&
+         match c with
+         | Op k' _ _ => negb (cls_eqb (cls_of_opk k') (cls_of_opk k) && named c)
+         | _ => true
+         end && go l'
+     end) l = true ->
+  Forall (fun c => no_named_flattened c = true /\
+                   (cls_eqb (cls_of c) (cls_of_opk k) = true -> named c = false)) l.
+Proof.
+  induction l as [|c l IH]; intros H; [constructor|].
+  apply andb_prop in H as [H H3]. apply andb_prop in H as [H1 H2].
+  constructor; [|apply IH; exact H3]. split; [exact H1|]. intros Hc.
+  destruct c; simpl in Hc; try (destruct k; discriminate);
+    try (destruct k0; destruct k; discriminate).
+  simpl in H2. rewrite Hc in H2. simpl in H2. destruct (named (Op k0 m ops)); [discriminate|reflexivity].
+Qed.
+
+Lemma nnf_children t :
+  no_named_flattened t = true ->
+  Forall (fun c => no_named_flattened c = true /\
+                   (is_binary t = true -> cls_eqb (cls_of c) (cls_of t) = true -> named c = false))
+         (children t).
+Proof.
+  destruct t as [k m v|m n e|k m e|m lo hi il ih|m x d i|m x d i|m e f i|k m ops|uk m a|k m a i|m];
+    simpl; intros H.
+  - constructor.
+  - repeat constructor; [exact H|discriminate].
+  - repeat constructor; [exact H|discriminate].
+  - apply andb_prop in H as [H1 H2]. repeat constructor; try assumption; discriminate.
+  - repeat constructor; [exact H|discriminate].
+  - repeat constructor; [exact H|discriminate].
+  - repeat constructor; [exact H|discriminate].
+  - pose proof (nnf_op_go k ops H) as HF. rewrite Forall_forall in *. intros c Hc.
+    destruct (HF c Hc) as [H1 H2]. split; [exact H1|]. intros _. exact H2.
+  - apply andb_prop in H as [H1 H2]. repeat constructor; [exact H1|].
+    intros Hb Hc. destruct uk; try discriminate.
+    destruct a as [[]| |[]| | | | |[]|[]|[]|]; try discriminate.
+    simpl in H2. destruct (named (Unary KPlus m0 a)); [discriminate|reflexivity].
+  - repeat constructor; [exact H|discriminate].
+  - constructor.
+Qed.
+
+Section LeavesSpec.
+  Variable cfg : es_config.
+  Variable env : es_env.
+
+  Definition par_ok (par : option cls) : Prop := forall p, par = Some p -> binary_cls cfg p = true.
+
+  Definition W (t : item) : Prop :=
+    forall par cx items, par_ok par -> visit cfg env t par cx = ROk items ->
+      if flat par t
+      then named t = false -> flat_map eleaves (tag (ekind cfg t) items) = xl cfg env t cx
+      else exists e, items = [e] /\ eleaves e = xl cfg env t cx /\ is_leaf e = leafy cfg env t cx.
+
+  Lemma walk_none_leaves cx l items :
+    Forall W l -> walk (visit cfg env) None cx l = ROk items ->
+    Forall2 (fun c e => eleaves e = xl cfg env c cx /\ is_leaf e = leafy cfg env c cx) l items.
+  Proof.
+    intros HW. revert items. induction HW as [|c l Hc _ IH]; simpl; intros items H.
+    - inversion H. constructor.
+    - destruct (visit cfg env c None cx) as [its|] eqn:Hv; [|discriminate].
+      destruct (walk (visit cfg env) None cx l) as [its'|]; [|discriminate].
+      inversion H; subst. assert (Hpo : par_ok None) by (intros p Hp; discriminate).
+      specialize (Hc None cx its Hpo Hv). simpl in Hc. destruct Hc as [e [-> [H1 H2]]].
+      simpl. constructor; [auto|]. apply IH. reflexivity.
+  Qed.
+
+  Lemma walk_some_leaves t cx l items :
+    is_binary t = true -> Forall W l ->
+    Forall (fun c => cls_eqb (cls_of c) (cls_of t) = true -> named c = false) l ->
+    walk (visit cfg env) (Some (cls_of t)) cx l = ROk items ->
+    flat_map eleaves (tag (ekind cfg t) items) =
+    flat_map (fun c => tagz (ztq_of_op (ekind cfg t)) (leafy cfg env c cx) (xl cfg env c cx)) l.
+  Proof.
+    intros Hb HW. revert items. induction HW as [|c l Hc _ IH]; simpl; intros items Hn H.
+    - inversion H. unfold tag. destruct (ztq_of_op (ekind cfg t)); reflexivity.
+    - inversion Hn as [|? ? Hn1 Hn2]; subst.
+      destruct (visit cfg env c (Some (cls_of t)) cx) as [its|] eqn:Hv; [|discriminate].
+      destruct (walk (visit cfg env) (Some (cls_of t)) cx l) as [its'|] eqn:Hw; [|discriminate].
+      inversion H; subst. rewrite tag_app, flat_map_app. rewrite (IH its' Hn2 eq_refl). f_equal.
+      assert (Hpo : par_ok (Some (cls_of t))).
+      { intros p Hp. inversion Hp; subst. rewrite binary_cls_of. exact Hb. }
+      specialize (Hc (Some (cls_of t)) cx its Hpo Hv). unfold flat in Hc.
+      destruct (cls_eqb (cls_of c) (cls_of t)) eqn:He.
+      + rewrite (same_cls_ekind cfg t c He) in Hc. rewrite (Hc (Hn1 eq_refl)).
+        rewrite binary_not_leafy by (rewrite (same_cls_binary t c He); exact Hb).
+        unfold tagz. destruct (ztq_of_op (ekind cfg t)); reflexivity.
+      + destruct Hc as [e [-> [H1 H2]]]. rewrite tag_single, H1, H2. reflexivity.
+  Qed.
+
+  Lemma leaves_supported : forall t,
+    supported t = true -> no_named_flattened t = true -> W t.
+  Proof.
+    intros t. induction t as [t IH] using item_children_ind. intros Hs Hn.
+    assert (HW : Forall W (children t)).
+    { apply supported_children in Hs as Hs'. apply nnf_children in Hn as Hn'.
+      rewrite Forall_forall in *. intros c Hc. apply IH; [exact Hc|auto|apply Hn'; exact Hc]. }
+    assert (Hnf : is_binary t = true ->
+                  Forall (fun c => cls_eqb (cls_of c) (cls_of t) = true -> named c = false) (children t)).
+    { intros Hb. apply nnf_children in Hn. rewrite Forall_forall in *. intros c Hc.
+      apply (proj2 (Hn c Hc) Hb). }
+    clear IH.
+    (* without enclosing operation *)
+    assert (Hnorm : forall cx items, visit cfg env t None cx = ROk items ->
+              exists e, items = [e] /\ eleaves e = xl cfg env t cx /\ is_leaf e = leafy cfg env t cx).
+    { intros cx items Hv.
+      destruct (is_binary t) eqn:Hb.
+      - (* operations and + *)
+        rewrite visit_unfold in Hv. unfold visit_via in Hv. rewrite (bhandler_binary cfg t Hb) in Hv.
+        destruct (walk (visit cfg env) (Some (cls_of t)) (propagate_name t cx) (children t))
+          as [its|] eqn:Hw; [|discriminate].
+        inversion Hv; subst. eexists. split; [reflexivity|]. split.
+        + rewrite mk_op_leaves, (walk_some_leaves t _ _ _ Hb HW (Hnf eq_refl) Hw), xl_binary by exact Hb.
+          reflexivity.
+        + rewrite binary_not_leafy by exact Hb. reflexivity.
+      - pose proof (bhandler_cls cfg t) as Hh. rewrite visit_unfold in Hv. unfold visit_via in Hv.
+        rewrite Hh in Hv.
+        destruct t as [[]| |[]| | | | |[]|[]|[]|]; try discriminate; simpl children in *.
+        + (* Word *) simpl in Hv. inversion Hv. eexists. repeat split.
+        + (* Phrase *) simpl in Hv. unfold xl, phrase_leaf.
+          destruct (ctx_is_analyzed cfg cx); inversion Hv; eexists; repeat split.
+        + (* SearchField *) simpl field_name in Hv. cbv iota beta zeta in Hv.
+          fold (field_ctx cfg (SearchField m fname t) fname cx) in Hv.
+          destruct (single (walk (visit cfg env) None (field_ctx cfg (SearchField m fname t) fname cx) [t]))
+            as [e1|] eqn:Hsg; [|discriminate].
+          apply single_ok in Hsg. apply (walk_none_leaves _ _ _ HW) in Hsg.
+          inversion Hsg as [|? ? ? ? [H1 H2] Hrest]; subst. inversion Hrest; subst.
+          simpl xl. simpl leafy.
+          destruct (split_nested env fname cx) as [p|].
+          * destruct (is_enested e1) eqn:Hen; inversion Hv; subst; eexists; split; try reflexivity.
+            -- split; [exact H1|]. rewrite andb_false_r. destruct e1; try discriminate; reflexivity.
+            -- split; [|rewrite andb_false_r; reflexivity]. unfold mk_nested. simpl.
+               rewrite eleaves_exclude. exact H1.
+          * inversion Hv; subst. eexists. split; [reflexivity|]. rewrite andb_true_r. auto.
+        + (* Group *) apply (walk_none_leaves _ _ _ HW) in Hv.
+          inversion Hv as [|? ? ? ? [H1 H2] Hrest]; subst. inversion Hrest; subst.
+          eexists. split; [reflexivity|]. auto.
+        + (* FieldGroup *) apply (walk_none_leaves _ _ _ HW) in Hv.
+          inversion Hv as [|? ? ? ? [H1 H2] Hrest]; subst. inversion Hrest; subst.
+          eexists. split; [reflexivity|]. auto.
+        + (* Range *) simpl in Hs. apply andb_prop in Hs as [Hlo Hhi].
+          destruct (range_bound_has_value _ Hlo) as [vlo Hvlo].
+          destruct (range_bound_has_value _ Hhi) as [vhi Hvhi]. simpl xl.
+          rewrite Hvlo, Hvhi in *. inversion Hv. eexists. repeat split.
+        + (* Fuzzy *)
+          destruct (single (walk (visit cfg env) None (propagate_name (Fuzzy m t deg impl) cx) [t]))
+            as [e1|] eqn:Hsg; [|discriminate].
+          apply single_ok in Hsg. apply (walk_none_leaves _ _ _ HW) in Hsg.
+          inversion Hsg as [|? ? ? ? [H1 H2] Hrest]; subst. inversion Hrest; subst.
+          simpl in Hv. inversion Hv; subst. eexists. split; [reflexivity|].
+          rewrite eleaves_on_leaf, is_leaf_on_leaf, H1, H2. simpl. split; reflexivity.
+        + (* Proximity *)
+          destruct (single (walk (visit cfg env) None (propagate_name (Proximity m t deg impl) cx) [t]))
+            as [e1|] eqn:Hsg; [|discriminate].
+          apply single_ok in Hsg. apply (walk_none_leaves _ _ _ HW) in Hsg.
+          inversion Hsg as [|? ? ? ? [H1 H2] Hrest]; subst. inversion Hrest; subst.
+          simpl in Hv. simpl xl. simpl leafy.
+          destruct (ctx_is_analyzed cfg cx); inversion Hv; subst; eexists; (split; [reflexivity|]);
+            rewrite eleaves_on_leaf, is_leaf_on_leaf, H1, H2; split; reflexivity.
+        + (* Boost *)
+          destruct (single (walk (visit cfg env) None (propagate_name (Boost m t force impl) cx) [t]))
+            as [e1|] eqn:Hsg; [|discriminate].
+          apply single_ok in Hsg. apply (walk_none_leaves _ _ _ HW) in Hsg.
+          inversion Hsg as [|? ? ? ? [H1 H2] Hrest]; subst. inversion Hrest; subst.
+          simpl in Hv. inversion Hv; subst. eexists. split; [reflexivity|].
+          rewrite eleaves_on_leaf, is_leaf_on_leaf, H1, H2. simpl. split; reflexivity.
+        + (* Not *)
+          destruct (walk (visit cfg env) None (propagate_name (Unary KNot m t) cx) [t]) as [its|] eqn:Hw;
+            [|discriminate].
+          apply (walk_none_leaves _ _ _ HW) in Hw.
+          inversion Hw as [|? ? ? ? [H1 H2] Hrest]; subst. inversion Hrest; subst.
+          inversion Hv; subst. eexists. split; [reflexivity|]. split; [|reflexivity].
+          rewrite mk_op_leaves, tag_single, H1, H2. reflexivity.
+        + (* Prohibit *)
+          destruct (walk (visit cfg env) None (propagate_name (Unary KProhibit m t) cx) [t]) as [its|] eqn:Hw;
+            [|discriminate].
+          apply (walk_none_leaves _ _ _ HW) in Hw.
+          inversion Hw as [|? ? ? ? [H1 H2] Hrest]; subst. inversion Hrest; subst.
+          inversion Hv; subst. eexists. split; [reflexivity|]. split; [|reflexivity].
+          rewrite mk_op_leaves, tag_single, H1, H2. reflexivity. }
+    (* with an enclosing operation *)
+    intros par cx items Hpo Hv. rewrite visit_par_form in Hv. unfold flat. destruct par as [p|].
+    - destruct (cls_eqb (cls_of t) p) eqn:He.
+      + apply cls_eqb_eq in He as Hp. subst p. intros Hun.
+        assert (Hb : is_binary t = true).
+        { rewrite <- (binary_cls_of cfg). apply Hpo. reflexivity. }
+        rewrite (walk_some_leaves t _ _ _ Hb HW (Hnf Hb) Hv), xl_binary by exact Hb.
+        rewrite (propagate_unnamed t cx Hun). reflexivity.
+      + destruct (mixes cfg p (cls_of t)).
+        * destruct (Nat.ltb (length (children t)) 2); discriminate.
+        * apply Hnorm. exact Hv.
+    - apply Hnorm. exact Hv.
+  Qed.
+End LeavesSpec.
+
+(* the leaf items of the E-tree of a supported tree are the expected ones *)
+Lemma build_etree_leaves cfg t e :
+  supported t = true -> no_named_flattened t = true -> build_etree cfg t = ROk e ->
+  eleaves e = expected_leaves cfg t.
+Proof.
+  intros Hs Hn. unfold build_etree, build_etree_env, expected_leaves.
+  destruct (check_nested (ev_chk (mk_env cfg)) t); [discriminate|].
+  destruct (visit cfg (mk_env cfg) t None ctx0) as [its|] eqn:Hv; [|discriminate].
+  assert (Hpo : par_ok cfg None) by (intros p Hp; discriminate).
+  pose proof (leaves_supported cfg (mk_env cfg) t Hs Hn None ctx0 its Hpo Hv) as H. simpl in H.
+  destruct H as [e1 [-> [H1 _]]]. intros He. inversion He; subst. exact H1.
+Qed.
+
+(* ================================================================ F. the leaf clauses of the JSON *)
+From Coq Require Import Permutation.
+
+Definition LJ (js : list json) : list json := flat_map leaves js.
+
+Lemma leaves_list_go l :
+  (fix gl (l : list json) : list json :=
+     match l with [] => [] | x :: l' => leaves x ++ gl l' end) l = LJ l.
+Proof. induction l as [|x l IH]; simpl; [reflexivity|]. rewrite IH. reflexivity. Qed.
+
+Lemma leaves_bool_1 key js : leaves (JObj [(k_bool, JObj [(key, JList js)])]) = LJ js.
+Proof. simpl. rewrite leaves_list_go, app_nil_r. reflexivity. Qed.
+
+Lemma leaves_bool_parts m s n :
+  leaves (JObj [(k_bool, JObj (opt_entry k_must m ++ opt_entry k_should s ++ opt_entry k_must_not n))])
+  = LJ m ++ LJ s ++ LJ n.
+Proof.
+  destruct m as [|m0 m], s as [|s0 s], n as [|n0 n]; simpl; rewrite ?leaves_list_go, ?app_nil_r;
+    reflexivity.
+Qed.
+
+Lemma leaves_nested p j extra :
+  leaves (JObj [(k_nested, JObj ([(k_path, JStr p); (k_query, j)] ++ extra))]) = leaves j.
+Proof. reflexivity. Qed.
+
+Lemma leaf_clause_leaves cfg l j :
+  leaf_json cfg l = ROk j -> kind_not_reserved cfg l = true -> leaves j = [j] /\ clause cfg l = j.
+Proof.
+  intros Hj Hk. split; [|unfold clause; rewrite Hj; reflexivity].
+  unfold leaf_json in Hj. unfold kind_not_reserved in Hk.
+  destruct (match l_kind l, l_q l with LWord, Some q => str_eqb q k_star | _, _ => false end).
+  - inversion Hj. reflexivity.
+  - destruct (leaf_method cfg l) as [| | |m| |]; try discriminate.
+    apply andb_prop in Hk as [Hb Hn]. apply negb_true_iff in Hb, Hn.
+    destruct (str_eqb m k_query_string || str_eqb m k_multi_match); inversion Hj; simpl;
+      rewrite Hb, Hn; reflexivity.
+Qed.
+
+Definition bool_here (f : eitem -> eres json) (it : eitem) : eres (list json * list json * list json) :=
+  match it with
+  | EOp EKMust sub => match jmap f sub with RExc e => RExc e | ROk js => ROk (js, [], []) end
+  | EOp EKMustNot sub => match jmap f sub with RExc e => RExc e | ROk js => ROk ([], [], js) end
+  | _ => match f it with RExc e => RExc e | ROk j => ROk ([], [j], []) end
+  end.
+
+Lemma bool_parts_cons f it l :
+  bool_parts f (it :: l) =
+  match bool_here f it with
+  | RExc e => RExc e
+  | ROk (m1, s1, n1) =>
+      match bool_parts f l with
+      | RExc e => RExc e
+      | ROk (m2, s2, n2) => ROk (m1 ++ m2, s1 ++ s2, n1 ++ n2)
+      end
+  end.
+Proof. reflexivity. Qed.
+
+Lemma perm3 {A} (a1 a2 b1 b2 c1 c2 : list A) :
+  Permutation ((a1 ++ a2) ++ (b1 ++ b2) ++ (c1 ++ c2)) ((a1 ++ b1 ++ c1) ++ (a2 ++ b2 ++ c2)).
+Proof.
+  rewrite <- !app_assoc. apply Permutation_app_head.
+  eapply Permutation_trans; [apply Permutation_app_swap_app|]. apply Permutation_app_head.
+  rewrite (app_assoc a2 b2 (c1 ++ c2)), (app_assoc a2 b2 c2).
+  apply Permutation_app_swap_app.
+Qed.
+
+Section JsonLeaves.
+  Variable cfg : es_config.
+
+  Definition PJ (e : eitem) : Prop :=
+    forall j, ejson cfg e = ROk j -> forallb (kind_not_reserved cfg) (eleaves e) = true ->
+              Permutation (leaves j) (map (clause cfg) (eleaves e)).
+
+  Lemma jmap_perm items js :
+    Forall PJ items -> jmap (ejson cfg) items = ROk js ->
+    forallb (kind_not_reserved cfg) (flat_map eleaves items) = true ->
+    Permutation (LJ js) (map (clause cfg) (flat_map eleaves items)).
+  Proof.
+    intros HP. revert js. induction HP as [|e l He _ IH]; simpl; intros js Hj Hk.
+    - inversion Hj. constructor.
+    - destruct (ejson cfg e) as [j|] eqn:Hje; [|discriminate].
+      destruct (jmap (ejson cfg) l) as [js'|]; [|discriminate]. inversion Hj; subst.
+      rewrite forallb_app in Hk. apply andb_prop in Hk as [Hk1 Hk2].
+      simpl. rewrite map_app. apply Permutation_app; [apply He; auto|apply IH; auto].
+  Qed.
+
+  Lemma ejson_leaves : forall e, PJ e.
+  Proof.
+    intros e. induction e as [l|p n it IH|k items IH] using eitem_ind'; intros j Hj Hk.
+    - simpl in Hj, Hk. rewrite andb_true_r in Hk.
+      destruct (leaf_clause_leaves cfg l j Hj Hk) as [H1 H2]. simpl. rewrite H1, H2. constructor.
+      constructor.
+    - simpl in Hj. destruct (ejson cfg it) as [j'|] eqn:Hit; [|discriminate]. inversion Hj; subst.
+      match goal with |- Permutation (leaves (JObj [(_, JObj (_ :: _ :: ?x))])) _ =>
+        change (Permutation (leaves (JObj [(k_nested, JObj ([(k_path, JStr p); (k_query, j')] ++ x))]))
+                            (map (clause cfg) (eleaves it))) end.
+      rewrite leaves_nested. apply IH; auto.
+    - rewrite eleaves_op in *.
+      assert (Hstd : forall js, jmap (ejson cfg) items = ROk js ->
+                Permutation (LJ js) (map (clause cfg) (flat_map eleaves items))).
+      { intros js Hjs. apply jmap_perm; auto. }
+      destruct k; simpl in Hj;
+        try (destruct (jmap (ejson cfg) items) as [js|] eqn:Hjs; [|discriminate];
+             inversion Hj; subst; rewrite leaves_bool_1; apply Hstd; reflexivity).
+      (* EBoolOperation *)
+      destruct (bool_parts (ejson cfg) items) as [[[m s] n]|] eqn:Hb; [|discriminate].
+      inversion Hj; subst. rewrite leaves_bool_parts. clear Hj Hstd.
+      revert m s n Hb Hk. induction IH as [|it l Hit _ IHl]; intros m s n Hb Hk.
+      + simpl in Hb. inversion Hb. constructor.
+      + rewrite bool_parts_cons in Hb. simpl in Hk. rewrite forallb_app in Hk.
+        apply andb_prop in Hk as [Hk1 Hk2].
+        destruct (bool_here (ejson cfg) it) as [[[m1 s1] n1]|] eqn:Hh; [|discriminate].
+        assert (Hp1 : Permutation (LJ m1 ++ LJ s1 ++ LJ n1) (map (clause cfg) (eleaves it))).
+        { assert (Hshould : forall j, ejson cfg it = ROk j ->
+                    Permutation (LJ [] ++ LJ [j] ++ LJ []) (map (clause cfg) (eleaves it))).
+          { intros j Hj. simpl. rewrite !app_nil_r. apply Hit; auto. }
+          unfold bool_here in Hh. destruct it as [lf|p n0 it'|[] sub]; cbv iota beta in Hh;
+            try (match type of Hh with
+                 | match ?x with _ => _ end = _ => destruct x as [j|] eqn:Hj; [|discriminate]
+                 end; inversion Hh; subst; apply Hshould; first [exact Hj | reflexivity]).
+          - destruct (jmap (ejson cfg) sub) as [js|] eqn:Hjs; [|discriminate].
+            injection Hh as <- <- <-. simpl LJ. rewrite !app_nil_r.
+            rewrite <- (leaves_bool_1 (op_key EKMust) js). apply Hit; [|exact Hk1].
+            simpl. rewrite Hjs. reflexivity.
+          - destruct (jmap (ejson cfg) sub) as [js|] eqn:Hjs; [|discriminate].
+            injection Hh as <- <- <-. simpl LJ.
+            rewrite <- (leaves_bool_1 (op_key EKMustNot) js). apply Hit; [|exact Hk1].
+            simpl. rewrite Hjs. reflexivity. }
+        destruct (bool_parts (ejson cfg) l) as [[[m2 s2] n2]|] eqn:Hb2; [|discriminate].
+        inversion Hb; subst. specialize (IHl m2 s2 n2 eq_refl Hk2).
+        unfold LJ in *. change (flat_map eleaves (it :: l)) with (eleaves it ++ flat_map eleaves l).
+        rewrite !flat_map_app, map_app.
+        eapply Permutation_trans; [|apply Permutation_app; [exact Hp1|exact IHl]].
+        (* (a1++a2)++(b1++b2)++(c1++c2)  ~  (a1++b1++c1)++(a2++b2++c2) *)
+        apply perm3.
+  Qed.
+End JsonLeaves.
+
+(* the leaf clauses of the generated query are the clauses of the expected leaves *)
+Lemma build_leaves cfg t j :
+  supported t = true -> no_named_flattened t = true -> kinds_not_reserved cfg t = true ->
+  build cfg t = ROk j -> Permutation (leaves j) (expected_clauses cfg t).
+Proof.
+  intros Hs Hn Hk. unfold build. destruct (build_etree cfg t) as [e|] eqn:He; [|discriminate].
+  intros Hj. pose proof (build_etree_leaves cfg t e Hs Hn He) as Hl.
+  unfold expected_clauses. rewrite <- Hl. apply ejson_leaves; [exact Hj|].
+  rewrite Hl. exact Hk.
 Qed.
